@@ -89,8 +89,10 @@ CONSUMERS = ["rfc7523_validator", "rfc9068_validator", "flask_parse_id_token", "
 
 
 def consumer_cases():
-    """the places where the library itself configures the issuer check for a caller: only the configured issuer passes"""
-    return [{"consumer": cn, "iss": y} for cn in CONSUMERS for y in ISS_NEAR]
+    """the places where the library itself configures the issuer check for a caller: only the configured issuer passes;
+    and the derived ID-Token rules (nonce, aud / azp, exp with leeway, at_hash) as the three client integrations apply them"""
+    from props import c13
+    return [{"consumer": cn, "iss": y} for cn in CONSUMERS for y in ISS_NEAR] + [dict(c, consumer="rp:" + c["fw"]) for c in c13.rp_cases()]
 
 
 def near_iss(y):
@@ -99,6 +101,9 @@ def near_iss(y):
 
 
 def impl_consumer(c):
+    if c["consumer"].startswith("rp:"):
+        from props import c13
+        return c13.impl_rp(c)
     import asyncio, time as _t
     from authlib.jose import jwt as _jwt, OctKey
     import memserver as ms
@@ -465,6 +470,9 @@ def violated(payload, options, now, lw):
 
 
 def oracle(c, out):
+    if c.get("consumer", "").startswith("rp:"):
+        from props import c13
+        return [(what, dict(sig, consumer=c["consumer"])) for what, sig in c13.oracle(c, out)]
     if c.get("consumer"):
         if "raised" in out:
             return [(f"{c['consumer']} raised {out['raised']}", {"kind": "crash", "exc": out["raised"].split(":")[0], "consumer": c["consumer"]})]
